@@ -20,6 +20,9 @@ for pid in ALL:
         na.append(dict(property_id=pid, reason=NOT_APPLICABLE.get(pid, NOT_YET)))
         continue
     src = open(path).read()
+    if re.search(r'^WIP\s*=\s*True', src, re.M):
+        na.append(dict(property_id=pid, reason=NOT_YET))
+        continue
     def grab(name, default=''):
         m = re.search(rf"^{name}\s*=\s*(\(.*?\)|'.*?'|\".*?\")\s*$", src, re.S | re.M)
         return eval(m.group(1)) if m else default
